@@ -286,6 +286,11 @@ def spec_call(self, name, e, st):
         fn, atys, rty = SPEC_FUNCS[name]
         args = [self.coerce(one(a), t) for a, t in zip(e.args, atys)]
         return Val(fn(*[a.t for a in args]), rty)
+    if name == "call_arg":
+        key = f"arg:{e.args[0].value}.{e.args[1].value}"
+        if key not in st.ghost:
+            raise Unsupported(f"call_arg: no recorded call {key} on this path")
+        return st.ghost[key]
     if name == "implies":
         a, b = one(e.args[0]), one(e.args[1])
         return Val(z3.Implies(self.truthy(a), self.truthy(b)), "bool")
@@ -666,8 +671,9 @@ def method_call(self, st, base, attr, args, node):
                 self.write_field(s, base, cls, "keys", Val(z3.Empty(sort_of(ks.ty)), ks.ty), line)
                 yield s, Val(z3.IntVal(0), "none")
                 return
-            if attr == "update" and len(args) == 1 and args[0].ty == "dictval":
-                nk, nm = args[0].py
+            if attr == "update" and len(args) == 1 and is_ref(args[0].ty) and args[0].ty[1] == cls:
+                nk = self.read_field(st, args[0], cls, "keys")
+                nm = self.read_field(st, args[0], cls, "map")
                 if not z3.eq(z3.simplify(z3.Length(ks.t)), z3.IntVal(0)):
                     raise Unsupported("dict.update on a dict that is not known to be empty")
                 s = st.fork()
